@@ -149,6 +149,21 @@ impl MemServer {
 		self.http(req).await
 	}
 
+	/// POST a body whose stream yields `frames` and then fails (the peer vanished mid-body, a malformed final chunk, ...).
+	pub async fn http_post_frames_then_error(&self, frames: Vec<Vec<u8>>, why: &str) -> HttpReply {
+		let mut items: Vec<Result<http_body::Frame<Bytes>, std::io::Error>> = frames.into_iter().map(|f| Ok(http_body::Frame::data(Bytes::from(f)))).collect();
+		items.push(Err(std::io::Error::new(std::io::ErrorKind::ConnectionReset, why.to_string())));
+		let body = http_body_util::StreamBody::new(tokio_stream::iter(items));
+		let req = http::Request::builder()
+			.method("POST")
+			.uri("http://localhost/")
+			.header("host", "localhost")
+			.header("content-type", "application/json")
+			.body(body)
+			.expect("request");
+		self.http(req).await
+	}
+
 	/// POST `body` as application/json in one frame, directly on the tower service.
 	pub async fn http_post(&self, body: Vec<u8>) -> HttpReply {
 		let req = http::Request::builder()
